@@ -385,6 +385,34 @@ theorem C17_handoff_framing_mismatch :
       some [(none, 0), (none, 1)] := by
   decide
 
+/-- **C17 hand-off queue is lossless.**  The queue between an acceptor and its local
+executor is an unbounded FIFO: for every sequence of `put`s (accepted connections,
+any number pending) and `get`s (one per executor round, `Empty` when nothing
+waits), the works taken so far followed by the works still waiting are exactly the
+works put, in order — none dropped, duplicated or reordered; in particular once
+the queue is empty every accepted connection has been handed to the executor. -/
+theorem C17_handoff_queue_lossless (ops : List QOp) :
+    (qrun ops).got.filterMap id ++ (qrun ops).q = putsOf ops ∧
+    ((qrun ops).q = [] → (qrun ops).got.filterMap id = putsOf ops) := by
+  have h := qrun_account ops {}
+  simp only [List.filterMap_nil, List.nil_append] at h
+  refine ⟨h, fun he => ?_⟩
+  unfold qrun at he ⊢
+  rw [he, List.append_nil] at h
+  exact h
+
+/-- 250 connections pending, then taken one per round: all 250, in order -/
+example :
+    let ops := (List.range 250).map QOp.put ++ List.replicate 251 QOp.get
+    (qrun ops).got.filterMap id = List.range 250 ∧ (qrun ops).got.getLast? = some none := by
+  decide
+
+/-- **a bounded queue is not equivalent.**  With `deque(maxlen=cap)` semantics the
+oldest waiting connections are silently discarded once more than `cap` are pending. -/
+theorem C17_handoff_queue_bounded_loses :
+    (((List.range 5).map QOp.put ++ List.replicate 5 QOp.get).foldl (bqstep 3) {}).got.filterMap id = [2, 3, 4] := by
+  decide
+
 end Px.Modes
 
 namespace Px.Idle
